@@ -1,4 +1,4 @@
-//! Harness crate `parser`: dicom-parser kernels (C07, C01a, C04 stateful encoder, C05 readers, C06, C02)
+//! Harness crate `parser`: dicom-parser kernels (C07 value readers; the C04 writer harnesses ran out of memory and moved to Engine M)
 #![allow(unused)]
 #[path = "../../common/common.rs"]
 pub mod common;
@@ -7,4 +7,3 @@ pub mod common;
 pub mod stubs;
 #[cfg(kani)]
 mod c07;
-#[cfg(kani)]
